@@ -639,7 +639,8 @@ def universe(tier):
     for size in (512, 256):
         add('hist', 'Blake2', [size], blake2_alpha(size))
     add('hist', 'blake2b', [], blake2_alpha(512))
-    add('histp', 'Blake2', [512], blake2_alpha(512, False)); add('histp', 'blake2s', [], blake2_alpha(256, False))
+    a2, p2 = blake2_alpha(512, False)
+    add('histp', 'Blake2', [512], ([a for a in a2 if a not in blake2_alpha(512)[0]] + a2[:2] + [a for a in a2 if a.startswith('update')][:2], p2[:3]))
     if full: add('hist', 'blake2s', [], blake2_alpha(256))
     add('histp', 'Skein', [256, 256, '-', '-', '-', 'l0,0,0'], skein_alpha(None))
     add('histp', 'Skein', [512, 512, hx(b'kk'), hx(b'p'), hx(b'n'), 'l0,0,0'], skein_alpha(None))
@@ -700,6 +701,16 @@ def mkline(op, kind, cfg, steps, probe):
 
 
 def cases(tier, rng):
+    if tier != 'search':
+        import random
+        out = list(_cases(tier, rng))
+        random.Random(20260927).shuffle(out)          # fixed permutation: spreads the slow kinds over the worker chunks
+        yield from out
+        return
+    yield from _cases(tier, rng)
+
+
+def _cases(tier, rng):
     if tier == 'search':
         U = universe('thorough')
         while True:
@@ -713,8 +724,8 @@ def cases(tier, rng):
         depth = 1 if cls == 'known' else exh
         for n in range(depth + 1):
             # every history of length n; followed by every probe (short histories) or by probes taken in rotation
-            # (longest exhaustive length: quick 2 probes per history, thorough 1), so that every probe follows every step
-            per = len(P) if (n < depth or n <= 1) else (2 if tier == 'quick' else 1)
+            # (longest exhaustive length: one probe per history), so that every probe follows every step
+            per = len(P) if (n < depth or n <= 1) else 1
             for j, seq in enumerate(itertools.product(A, repeat=n)):
                 for k in range(per):
                     yield mkline(op, kind, cfg, seq, P[(j + k + sum(map(len, seq))) % len(P)]), '%s:len%d' % (kind, n)
